@@ -39,6 +39,7 @@ Record label := { l_kind : akind; l_who : who; l_file : fid }.
 (* what an access may answer while the process is alive, besides success and refusal:
    nothing else / also ENOENT, ESRCH (file may be gone) / also EINVAL (not a link) *)
 Inductive oclass := Strict | MayVanish | MayVanishOrInval
+| MayEnoent      (* a device node outside procfs: may be unlinked (ENOENT) while the process is still there *)
 | DirSurvives.   (* /proc/<pid> itself: may still answer although the process is gone (half-removed, see w_half) *)
 
 Inductive errno := ENOENT | ESRCH | EACCES | EPERM | EINVAL.
@@ -447,6 +448,12 @@ Definition i_net_connections (kind : nat) :=
 Definition i_terminal :=
   Call (wrapped (seqs [ parse_stat; acc KListdir Global FDevDir;
                         ForNames (Try (acc KStat Ext FDevE) (handlers [(HFnf, Skip)]) Skip); Ret ])).
+(* ... with the terminal map already memoised (possibly STALE: a pty allocated later is not in it, a pty freed by the
+   exiting process still is): the lookup is a dictionary access -- world fact W_TTYHIT says whether tty_nr is a key --
+   and terminal() touches nothing but /proc/<pid>/stat *)
+Definition W_TTYHIT := 4%nat.
+Definition i_terminal_warm :=
+  Call (wrapped (seqs [ parse_stat; If (TParam W_TTYHIT) Ret Ret ])).
 Definition i_sys (f : fid) := Call (wrapped (acc KSys Self f)).    (* nice_get ionice_get cpu_affinity_get *)
 Definition i_rlimit := Call (wrapped (Try (acc KSys Self FSysRlimit) (handlers [(HOSError, Reraise)]) Skip)).
 
@@ -654,3 +661,6 @@ Definition h_parent := parent_with h_check h_ppid.
 Definition h_parents := parents_with h_parent.
 Definition h_children := children_with h_check ppid_map.
 Definition h_children_rec := children_rec_with h_check.
+
+Definition terminal_of (x : who) (st : fid) :=      (* process_iter(['terminal']) with a memoised map *)
+  Call (wrapped_at x st (seqs [ parse_stat_of x st; If (TParamCur W_TTYHIT) Ret Ret ])).
